@@ -78,3 +78,12 @@ package helpers
 //@   requires *writeOutput != nil && !mu_held(outputMutex)
 //@   assert at "writeOutput()" : mu_held(outputMutex)
 //@   loop 1 invariant !mu_held(outputMutex)
+
+// C13: every sorter that is built owns its state: a new wrapper per call, and for the modes whose
+// comparators remember what they inferred (contextual, date) a new comparator per call - two
+// sorts in one process (rows and columns of a table) never share a comparator.
+//@ func lookupSorter
+//@   ensures [own-wrapper] result1 == nil ==> fresh(result0)
+//@   ensures [own-state] result1 == nil && (str_lower(name) == "contextual" || str_lower(name) == "context" || str_lower(name) == "date") ==> fresh(wraps(result0))
+//@ func BuildSorter
+//@   ensures [own-wrapper] result1 == nil ==> fresh(result0)
